@@ -737,6 +737,10 @@ class StrategyBase(Node):
                 # Declare a bankruptcy
                 self.bankrupt = True
                 self.flatten()
+                # flatten has changed positions and cash: the totals gathered
+                # above are those of the pre-liquidation tree, so redo the
+                # update on the liquidated one (same date, so no resets)
+                return self.update(date, data, inow)
 
         # update data if this value is different or
         # if now has changed - avoid all this if not since it
